@@ -972,7 +972,7 @@ RAISE_EXCS = ["RuntimeError('C10 injected failure')", "ValueError('C10 injected 
 # with a non-zero multiple of 256 AND the status is 0; probed by the exit-status law only
 EXIT256_CLASS = 'script-exit-code-multiple-of-256'
 EXIT256_EXCS = ["SystemExit(256)", "SystemExit(512)"]
-# open finding C10-options-filenotfounderror-swallowed: build._execute_options catches FileNotFoundError around the whole
+# finding C10-options-filenotfounderror-swallowed (repaired by 1b55cd9; a fixed entry suppresses nothing): build._execute_options caught FileNotFoundError around the whole
 # execution of options.bfg (meant for a missing file), so a FileNotFoundError raised INSIDE options.bfg ends the script
 # silently and the run goes on.  Class: options.bfg raises FileNotFoundError AND the run exits 0 AND wrote the build file
 OPTS_FNF_CLASS = 'options-file-filenotfounderror-swallowed'
